@@ -15,10 +15,12 @@ for d in sorted(glob.glob(os.path.join(V, "seeded", "C*-*"))):
         status = "strengthened: " + m.get("strengthening", "")
     elif m.get("strengthening"):
         status += " (" + m["strengthening"] + ")"
+    if m.get("outside_statement"):
+        status = "not reported: " + m["outside_statement"]
     if m.get("neutralised_by"):
         status += " [neutralised on the current tree by " + m["neutralised_by"] + "]"
     cell = lambda s: s.replace("|", "\\|").replace("\n", " ")
-    rows.append("| %s | %s | %s | %s |" % (os.path.basename(d), cell(m["idea"]), ", ".join(m["caught_by"]), cell(status)))
+    rows.append("| %s | %s | %s | %s |" % (os.path.basename(d), cell(m["idea"]), (", ".join(m["caught_by"]) or "—"), cell(status)))
 
 p = os.path.join(V, "DESIGN.md")
 lines = open(p).read().split("\n")
